@@ -418,6 +418,14 @@ class Engine:
             if not isinstance(v, Raised): s.assign(e.target, v, st1, ctx)
             outs.append((st1, v))
         return outs
+    def e_Yield(s, e, st, ctx):
+        """inside a generator function executed eagerly (see inline): the yielded value is appended to the ghost list of results"""
+        if "$yielded" not in st.locals: raise Unsupported(f"yield outside an eagerly evaluated generator line {e.lineno}")
+        outs = []
+        for st1, v in (s.eval(e.value, st, ctx) if e.value is not None else [(st, None)]):
+            if not isinstance(v, Raised): st1.locals["$yielded"] = list(st1.locals["$yielded"]) + [v]
+            outs.append((st1, v if isinstance(v, Raised) else None))
+        return outs
     def e_Await(s, e, st, ctx):
         # sequential reading of a coroutine: `await x` evaluates x; what other tasks may do at the suspension point is the sidecar's rely condition
         hook = getattr(s, "await_hook", None)
@@ -725,6 +733,12 @@ class Engine:
             keys = list(coll)
             parts = [to_bool(s.compare(ast.Eq(), item, k)) for k in keys]
             return SBool(z3.Or(*parts)) if parts else False
+        if isinstance(coll, SBytes) and isinstance(item, (int, SInt, SBV)) and not isinstance(item, bool):
+            # octet in <byte string>: some position holds it
+            k = fresh("k_in", z3.IntSort()); w = item if isinstance(item, int) else None
+            val = z3.BitVecVal(item, 8) if w is not None else (to_bv(item, 8) if isinstance(item, SBV) and item.w <= 8 else z3.Int2BV(to_int(item), 8))
+            inrange = z3.BoolVal(0 <= item <= 255) if w is not None else z3.And(to_int(item) >= 0, to_int(item) <= 255)
+            return SBool(z3.And(inrange, z3.Exists([k], z3.And(k >= 0, k < coll.n, coll.at(k) == val))))
         raise Unsupported("in on symbolic collection")
 
     def e_BinOp(s, e, st, ctx):
@@ -1128,6 +1142,15 @@ class Engine:
                 return [(st, SStrList(fresh("parts", STR_ARR), n_))]
         if isinstance(base, list) and attr == "clear" and not args:
             base.clear(); return [(st, None)]
+        if type(base) is list and attr == "pop" and len(args) <= 1 and all(isinstance(a, int) and not isinstance(a, bool) for a in args):
+            i = args[0] if args else -1
+            outs = []
+            for st1, r in s.implicit_failure(st, ctx, "safe:pop-index", -len(base) <= i < len(base), "IndexError", node):
+                if r is not None: outs.append((st1, r)); continue
+                # the list object of this path (copied per path by State.fork): find it again in st1 by position in locals / heap is not needed when no fork happened
+                if st1 is not st: raise Unsupported("list.pop on a forked state")
+                outs.append((st1, base.pop(i)))
+            return outs
         h = s.prelude_methods.get(attr)
         if h is not None: return h(s, st, base, args, ctx, node)
         raise Unsupported(f"method {attr} line {node.lineno}")
@@ -1654,8 +1677,18 @@ class Engine:
                 (st_, dv), = s.eval(defaults[di], st, sub); args = args + [dv]
         st.locals = dict(zip(params, args))
         st.locals["$entry"] = tuple(args)
+        yields = sorted((n.lineno for n in ast.walk(fn) if isinstance(n, (ast.Yield, ast.YieldFrom))))
+        if yields:
+            # generator function: evaluated eagerly into the list of yielded values.  Equivalent to lazy evaluation when, after its first yield, the generator reads
+            # nothing the consumer could have changed: checked syntactically (no attribute of self / module state is read below the first yield)
+            if any(isinstance(n, ast.YieldFrom) for n in ast.walk(fn)): raise Unsupported(f"yield from in {q}")
+            for n in ast.walk(fn):
+                if isinstance(n, ast.Attribute) and isinstance(n.ctx, ast.Load) and getattr(n, "lineno", 0) > yields[0] and isinstance(n.value, ast.Name) and n.value.id in ("self", "cls"):
+                    raise Unsupported(f"generator {q} reads object state after its first yield (eager evaluation would not be faithful)")
+            st.locals["$yielded"] = []
         outs = []
         for st1, flow, val in s.exec_block(fn.body, st, sub):
+            if yields and flow in (NORMAL, RETURN): val = list(st1.locals.get("$yielded", [])); flow = RETURN
             st1.locals = dict(saved)
             if flow in (NORMAL, RETURN): outs.append((st1, val if flow == RETURN else None))
             elif flow == RAISE: outs.append((st1, val))
